@@ -12,9 +12,11 @@
   EVERY argument vector unless a statement names a generated table, in which case it is checked
   over that table by kernel evaluation.
 
+  D11 (`parser.StringsN` panicked on a negative count) has been repaired in the Go tree; the model
+  has no panic source left: `parser_total_no_panic` (every grammar, every argument vector),
+  `parse_never_panics` (every request), `stringsN_refuses_iff`, `negative_numkeys_is_refused`;
+  `grammars_with_stringsN` records where `StringsN` occurs.
   Known deviations of the real code, reproduced by the model, and how they show up here:
-    D11  `parser.StringsN` panics on a negative count  → `parser_total_no_panic_partial`,
-         `stringsN_panics_only_negative`, `only_numkeys_grammars_can_panic`, `negative_numkeys_panics`
     D13  `parser.Enum` and the CONFIG sub-command compare exactly → `enum_is_case_sensitive`,
          `grammars_with_enum`, `config_subcommand_is_case_sensitive`
     D20  `SET k v EX 0` is accepted as "no expiry" → `set_ex_zero_accepted`
@@ -32,49 +34,46 @@ namespace Redka.Props.C13
 
 open Redka Redka.Wire Redka.WireProofs
 
-/-! ### A.1 the pipeline is total; it panics only through `StringsN` with a negative count -/
+/-! ### A.1 the pipeline is total: nothing panics -/
 
-/-- A grammar without `parser.StringsN` can never panic, whatever the arguments. -/
-theorem parser_total_no_panic_partial :
-    ∀ (g : Grammar) (args : List Bytes), NoStringsN g → runGrammar g args ≠ .panic := by
-  intro g args h e
-  have := runGrammar_noPanic g args h
-  rw [e] at this
-  cases this
+/-- **No grammar can panic, whatever the arguments** — any grammar built from the thirteen
+combinators, `StringsN` included. -/
+theorem parser_total_no_panic :
+    ∀ (g : Grammar) (args : List Bytes), runGrammar g args ≠ .panic :=
+  runGrammar_ne_panic
 
-/-- `parser.StringsN` panics exactly when something is left to parse and the count slot, parsed
-earlier, is negative … -/
-theorem stringsN_panics_iff :
-    ∀ (slot nSlot : String) (args : List Bytes) (env : Env),
-      runP (.stringsN slot nSlot) args env = .panic ↔ args ≠ [] ∧ getInt env nSlot < 0 :=
-  stringsN_panic_iff
+/-- `parser.StringsN` answers `ErrInvalidArgNum` exactly when something is left to parse and the
+count slot, parsed earlier, is negative or larger than what is left … -/
+theorem stringsN_refuses_iff :
+    ∀ (slot nSlot : String) (args : List Bytes) (env : Env) (e : PErr),
+      runP (.stringsN slot nSlot) args env = .fail e ↔
+        e = .invalidArgNum ∧ args ≠ [] ∧
+          (getInt env nSlot < 0 ∨ (args.length : Int) < getInt env nSlot) :=
+  stringsN_fail_iff
 
-/-- … and a whole `Pipeline.Run` — any grammar — can only panic when one of the arguments is,
-for `strconv.Atoi`, a negative integer (every `int` slot is filled from an argument). -/
-theorem stringsN_panics_only_negative :
-    ∀ (g : Grammar) (args : List Bytes), runGrammar g args = .panic →
-      ∃ a ∈ args, ∃ i, atoi a = some i ∧ i < 0 :=
-  runGrammar_panic
+/-- … in particular a negative count is refused (it used to panic in `make([]string, n)`: D11). -/
+theorem stringsN_negative_refused :
+    ∀ (slot nSlot : String) (args : List Bytes) (env : Env), args ≠ [] → getInt env nSlot < 0 →
+      runP (.stringsN slot nSlot) args env = .fail .invalidArgNum :=
+  WireProofs.stringsN_negative_refused
 
 /-- Over the generated table: the grammars that contain `StringsN` are exactly the four
 `numkeys` parsers. -/
-theorem only_numkeys_grammars_can_panic :
+theorem grammars_with_stringsN :
     grammarsWhere (fun g => hasStringsNL g.parsers) =
       ["zset.ParseZInter", "zset.ParseZInterStore", "zset.ParseZUnion", "zset.ParseZUnionStore"] :=
   stringsN_table
 
-/-- D11 witness: `ZINTER -1 k1`. -/
-theorem negative_numkeys_panics :
-    outcomeIsPanic (runGrammar Generated.grammar_ZInter [asciiBytes "-1", asciiBytes "k1"]) = true :=
-  WireProofs.negative_numkeys_panics
+/-- The former D11 witness: the arguments `-1 k1` of `ZINTER` end in `ErrInvalidArgNum`. -/
+theorem negative_numkeys_is_refused :
+    isError .invalidArgNum (runGrammar Generated.grammar_ZInter [asciiBytes "-1", asciiBytes "k1"]) = true :=
+  WireProofs.negative_numkeys_is_refused
 
-/-- At the level of `command.Parse`: a panic needs one of the four `numkeys` commands AND a negative
-integer among its arguments. -/
-theorem parse_panics_only_numkeys_negative :
-    ∀ req : List Bytes, poIsPanic (parse req) = true →
-      ∃ a0 rest name, req = a0 :: rest ∧ lowerName a0 = some name ∧
-        name ∈ numkeysCommands.map asciiBytes ∧ NegLit rest :=
-  parse_panic
+/-- **`command.Parse` never panics**: every request, any command name, any arguments. -/
+theorem parse_never_panics : ∀ req : List Bytes, ¬ poIsPanic (parse req) := by
+  intro req h
+  rw [parse_noPanic req] at h
+  cases h
 
 /-- no generated grammar contains a construct the extractor did not recognise -/
 theorem no_unknown_constructs : grammarsWhere (fun g => hasUnknownL g.parsers) = [] :=
@@ -288,20 +287,19 @@ local notation "b" => bs
 local notation "cmdOf" => pCmd
 local notation "errOf" => pErr
 
-/-- `grammar_Set`, `grammar_ZAdd` … have no `StringsN`: the no-panic theorem applies to them -/
-example : NoStringsN Generated.grammar_Set := by decide
-example : NoStringsN Generated.grammar_ZAdd := by decide
-example : ¬ NoStringsN Generated.grammar_ZInter := by decide
+/-- the no-panic theorem applies to every grammar, with or without `StringsN` -/
 example (args : List Bytes) : runGrammar Generated.grammar_Set args ≠ .panic :=
-  parser_total_no_panic_partial _ args (by decide)
+  parser_total_no_panic _ args
+example (args : List Bytes) : runGrammar Generated.grammar_ZInter args ≠ .panic :=
+  parser_total_no_panic _ args
+example : hasStringsNL Generated.grammar_ZInter.parsers = true := by decide
 
-/-- the hypothesis of `stringsN_panics_only_negative` is satisfiable, and its conclusion is then the
-literal `-1` -/
-example : runGrammar Generated.grammar_ZInter [asciiBytes "-1", asciiBytes "k1"] = .panic := by
-  have h := negative_numkeys_panics
-  revert h
-  cases runGrammar Generated.grammar_ZInter [asciiBytes "-1", asciiBytes "k1"] <;> simp [outcomeIsPanic]
+/-- the former D11 request at the level of `command.Parse`: one arity error -/
+example : errOf (parse [b "ZINTER", b "-1", b "k1"]) = some .invalidArgNum := by decide +kernel
 example : atoi (b "-1") = some (-1) := by decide +kernel
+/-- the hypotheses of `stringsN_negative_refused` are satisfiable -/
+example : runP (.stringsN "keys" "n") [b "k1"] [("n", .int (-1))] = .fail .invalidArgNum :=
+  stringsN_negative_refused _ _ _ _ (by simp) (by decide)
 
 /-- case variants: `NX`, `nX`, `Nx`, `nx` -/
 example : CaseVariant (b "NX") (b "nx") := by decide +kernel
